@@ -13,6 +13,9 @@ for pid in ALL:
     if pid not in P.PROPS or P.PROPS[pid].get("unclaimed"):
         continue
     s = P.PROPS[pid]
+    has_bounded = s.get("bounded") and os.path.exists(f"/verif/bounded/{s['bounded']}.py")
+    if not (s.get("prover") or s.get("static") or has_bounded):
+        continue
     checks.append(
         {
             "property_id": pid,
